@@ -470,3 +470,119 @@ def dominators_in_callgraph_fast(P, root, targets, skip):
                 doms.add(cand)
         common = doms if common is None else (common & doms)
     return common
+
+
+# ---------------------------------------------------------------------------------------------- P5 escape alphabet (C14)
+def rule_p5(P):
+    """string_to_filename percent-escapes reserved characters and appends a '^' case suffix.  The encoding can only be
+    injective if every metacharacter the encoder itself introduces ('%', '^', ...) is classified as reserved (and therefore
+    escaped when it occurs in a name).  Decided structurally: the character constants the encoder emits vs the constants
+    tested by is_reserved_char (switch values and closed comparison ranges, through its callees in the same module)."""
+    findings, obl, samples = [], [], []
+    enc = "fontdrasil::paths::string_to_filename"
+    pred = "fontdrasil::paths::is_reserved_char"
+    if enc not in P.bodies or pred not in P.bodies:
+        raise E5Error("string_to_filename / is_reserved_char anchors not found")
+    # ---- metacharacters introduced by the encoder
+    meta = {}
+
+    def add_meta(txt, why):
+        if any(ch.isspace() for ch in txt) or len(txt) > 4:
+            return
+        for ch in txt:
+            if not ch.isalnum() and ch not in "._-":
+                meta.setdefault(ch, why)
+
+    for f in P.fmtlits:
+        if f["crate"] == "fontdrasil" and f["path"] == "paths::string_to_filename":
+            for l in f["lits"]:
+                add_meta(l, f"format literal {l!r}")
+    body = P.bodies[enc]
+
+    def const_char(op):
+        k = op.get("k")
+        if not k:
+            return None
+        if k.get("ty") == "char" and "int" in k:
+            return chr(int(k["int"]))
+        if k.get("ty") == "char" and "uneval" in k:
+            cb = P.bodies.get(k["uneval"])
+            if cb:
+                for blk in cb["blocks"]:
+                    for st in blk["s"]:
+                        for o in st["rv"].get("o", []):
+                            kk = o.get("k", {})
+                            if kk.get("ty") == "char" and "int" in kk:
+                                return chr(int(kk["int"]))
+        return None
+
+    for blk in body["blocks"]:
+        if blk["cl"]:
+            continue
+        t = blk["t"]
+        if t["t"] == "call":
+            kk = t["f"].get("k")
+            callee = (kk.get("res") or kk.get("fn")) if kk else ""
+            if callee.endswith("::push") and "string" in callee:
+                for a in t["a"][1:]:
+                    ch = const_char(a)
+                    if ch:
+                        add_meta(ch, "String::push(const)")
+            if callee.endswith("::push_str"):
+                for a in t["a"][1:]:
+                    s = a.get("k", {}).get("str")
+                    if s:
+                        add_meta(s, f"push_str({s!r})")
+        for st in blk["s"]:
+            for o in st["rv"].get("o", []):
+                s = o.get("k", {}).get("str")
+                if s:
+                    add_meta(s, f"literal {s!r}")
+    if not meta:
+        raise E5Error("P5: no escape metacharacters found in string_to_filename")
+    # ---- constants tested by the reserved-character predicate
+    fns = [f for f in P.reachable([pred]) if f.startswith("fontdrasil::paths::") and f in P.bodies]
+    values = set()
+    los, his = [], []
+    for fn in fns:
+        b = P.bodies[fn]
+        for blk in b["blocks"]:
+            t = blk["t"]
+            if t["t"] == "sw" and t.get("oty") in ("char", "u32"):
+                for v in t["v"]:
+                    values.add(int(v))
+            for st in blk["s"]:
+                rv = st["rv"]
+                if rv.get("r") == "bin" and rv.get("op") in ("Le", "Lt", "Ge", "Gt", "Eq", "Ne") and rv.get("lty") in ("char", "u32"):
+                    a, bb = rv["o"]
+                    ca = a.get("k", {}).get("int")
+                    cb_ = bb.get("k", {}).get("int")
+                    op = rv["op"]
+                    if op in ("Eq", "Ne"):
+                        for c in (ca, cb_):
+                            if c is not None:
+                                values.add(int(c))
+                        for o in (a, bb):
+                            ch = const_char(o)
+                            if ch:
+                                values.add(ord(ch))
+                    elif ca is not None and cb_ is None:      # const OP x
+                        if op in ("Le", "Lt"):
+                            los.append(int(ca) + (1 if op == "Lt" else 0))
+                        else:
+                            his.append(int(ca) - (1 if op == "Gt" else 0))
+                    elif cb_ is not None and ca is None:      # x OP const
+                        if op in ("Le", "Lt"):
+                            his.append(int(cb_) - (1 if op == "Lt" else 0))
+                        else:
+                            los.append(int(cb_) + (1 if op == "Gt" else 0))
+    lo = min(los) if los else 0
+    ranges = [(lo, h) for h in his]
+    for ch, why in sorted(meta.items()):
+        c = ord(ch)
+        ok = c in values or any(a <= c <= b for a, b in ranges)
+        obl.append({"rule": "P5", "inst": f"escape metacharacter {ch!r} ({why}) is itself classified reserved by is_reserved_char", "ok": ok})
+        samples.append({"rule": "P5", "metachar": ch, "introduced_by": why, "tested": ok})
+        if not ok:
+            findings.append(F("P5", f"P5|metachar|{ch}", f"string_to_filename introduces {ch!r} as an escape metacharacter ({why}) but is_reserved_char (and its callees) never tests for it: a name containing {ch!r} is written unescaped, so the encoding is not injective and two glyph names can share one IR file", P.body_file_line(pred)))
+    return findings, obl, samples, {"escape_metachars": sorted(meta), "reserved_switch_values": len(values)}
